@@ -278,7 +278,7 @@ def rule_R06_3(ctx):
         if g.from_expansion:
             continue
         for bb, i, pl, kd, aops, sp in g.aggregates(VALUE, "Int"):
-            okp = g.module == "eval::value" or g.root_fn().path == f.path
+            okp = g.module.startswith("eval::value") or g.root_fn().path == f.path
             r.inst("%s builds Value::Int" % g.path)
             if okp:
                 r.ok()
